@@ -107,6 +107,8 @@ type simConn struct {
 	written    []byte               // every byte accepted
 	closedCh   chan struct{}        // closed together with the connection (optional)
 	closeDelay func() time.Duration // Close takes this long before it takes effect (optional)
+	closeErr   error                // what Close returns after it closed the connection (optional)
+	nclose     int                  // Close invocations
 }
 
 func (c *simConn) Read(p []byte) (int, error) {
@@ -213,8 +215,9 @@ func (c *simConn) Close() error {
 	c.mu.Lock()
 	defer c.mu.Unlock()
 	c.markClosed()
+	c.nclose++
 	c.log.add(event{Kind: "close", Conn: c.id})
-	return nil
+	return c.closeErr
 }
 
 func (c *simConn) markClosed() {
